@@ -17,7 +17,7 @@ def cmp_parse(case, go, m, s):
     g = parse_split(go)
     if g is None:
         return corr, False
-    sp = s.split(" | ")
+    sp = s.split(" | ")[:3]
     if len(sp) != 3:
         return corr, False
     if g[1] == "TOOLONG":
@@ -52,17 +52,24 @@ def cmp_c20(case, go, m, s):
     if g is None:
         return corr, False
     a = case.split(" ")
-    L = limit_of(a[4])
     chunks = [] if a[7] == "-" else a[7].split(",")
     total = sum(len(c) // 2 for c in chunks if c != "_")
     pulled = int(g[2])
     if pulled > total:
         ok = False
+    mfb = re.search(r"fits=([01]) bound=(\d+)", s)
+    if not mfb:
+        return corr, False
+    fits, bound = mfb.group(1) == "1", int(mfb.group(2))
     if g[1] == "TOOLONG":
-        # the oversized piece starts after the last completed token: everything pulled beyond what
-        # the yielded events account for is at most L
-        if pulled > total or L < 0:
+        # (a) a stream in which every piece fits the limit is delivered completely: no ErrTooLong;
+        # (b) at most L bytes are read beyond the last completed event before the error is reported
+        if fits or pulled > bound:
             ok = False
+    elif " must=1" in s and a[5] == "-":
+        # (c) an event (or unfinished remainder) that cannot fit in L bytes must end the run with ErrTooLong:
+        # anything else means more than L bytes were buffered, or something was delivered in its place
+        ok = False
     return corr, ok
 
 
